@@ -1,4 +1,5 @@
 #!/bin/bash
+mkdir -p /tmp/seed   # lock files of the helper scripts live here (not used by any registered command)
 # rerun_failed.sh <log> [tries] — re-run every RETRY-FAIL test of a tools/baseline.sh log alone, up to <tries> times
 # (default 3); prints STILL-FAIL <name> for the ones that never pass. Run in the tree given by BASEDIR (default /repo).
 LOG=$1; N=${2:-3}
